@@ -349,6 +349,42 @@ Theorem C08_rel_history_exact : forall le is64 mips rela es pre tail slack,
 Proof. exact rel_history_exact. Qed.
 Print Assumptions C08_rel_history_exact.
 
+(* ---------------- the ELFFile object: get_dwarf_info() called repeatedly, in any order *)
+(* for EVERY image and flag sequence: the n-th call answers as a first call with its own flag
+   would, and the file image the object holds is unchanged *)
+Theorem C08_dwarf_call_own_flag : forall le is64 em img secs section (flags : list bool) n,
+  (n < length flags)%nat ->
+  nth n (fst (dwarf_calls le is64 em secs section (mkElfObj img) flags)) (Err EFuel)
+  = read_dwarf_section le is64 em img secs section (nth n flags false)
+  /\ snd (dwarf_calls le is64 em secs section (mkElfObj img) flags) = mkElfObj img.
+Proof. exact dwarf_call_own_flag. Qed.
+Print Assumptions C08_dwarf_call_own_flag.
+
+(* hence: every relocating call yields the reference application to the RAW section bytes (never
+   to bytes an earlier call relocated), every non-relocating call the raw bytes *)
+Theorem C08_dwarf_calls_exact :
+  forall le is64 em img secs section rs symtab (rela : bool) es syms pre tail pre2 tail2,
+  In em listed_machines ->
+  find_relocations_for_section secs (s_name section) = Some rs ->
+  s_type rs = (if rela then SHT_RELA else SHT_REL) ->
+  s_entsize rs = rel_entsize is64 (is64 && is_mips em) rela ->
+  nth_error secs (Z.to_nat (s_link rs)) = Some symtab ->
+  s_entsize symtab = sym_entsize is64 -> s_size symtab = zlen (encode_symtab le is64 syms) ->
+  img = pre ++ encode_table le is64 (is64 && is_mips em) rela es ++ tail ->
+  s_off rs = zlen pre -> s_size rs = zlen (encode_table le is64 (is64 && is_mips em) rela es) ->
+  img = pre2 ++ encode_symtab le is64 syms ++ tail2 -> s_off symtab = zlen pre2 ->
+  forallb (sym_wf is64) syms = true -> snd (nth 0 syms (0, 0)) = 0 ->
+  forallb (rent_wf is64 (is64 && is_mips em) rela) es = true ->
+  let data := firstn (Z.to_nat (s_size section)) (zskipn (s_off section) img) in
+  all_bytes data = true -> zlen data < 2 ^ 63 ->
+  forallb (apply_entry_wf is64 em rela (zlen data)) es = true ->
+  forall flags : list bool,
+  dwarf_calls le is64 em secs section (mkElfObj img) flags
+  = (map (fun f : bool => if f then spec_apply_all le is64 em rela (map snd syms) data es else Ok data) flags,
+     mkElfObj img).
+Proof. exact dwarf_calls_exact. Qed.
+Print Assumptions C08_dwarf_calls_exact.
+
 (* ---------------- non-vacuity: the hypotheses are met by concrete, non-trivial inputs *)
 (* a RELA entry with a negative addend and a full-width symbol index; a MIPS64 entry with all sub-fields *)
 Example C08_ex_entries :
@@ -393,4 +429,15 @@ Example C08_ex_history :
   spec_hist (relr_spec true ws) h
   = [AUnit; AItem 0x1000; AUnit; AList [0x1000; 0x1008; 0x11f8]; AInt 3; AItem 0x11f8; AStop;
      AUnit; AItem 0x1000; AInt 3; AItem 0x1008].
+Proof. repeat split; vm_compute; reflexivity. Qed.
+
+(* i386 REL: S is added to the in-place addend ONCE per call, whatever calls came before: applying
+   the reference twice in a row is a different (wrong) result, so the clause is not vacuous *)
+Example C08_ex_repeated_calls :
+  let symvals := [0; 0x100] in
+  let es := [mkRent 0 1 1 0 0 0 0] in
+  let s := [1; 0; 0; 0; 9; 9; 9; 9] in
+  map (fun f : bool => if f then spec_apply_all true false EM_386 false symvals s es else Ok s) [true; false; true]
+  = [Ok [1; 1; 0; 0; 9; 9; 9; 9]; Ok s; Ok [1; 1; 0; 0; 9; 9; 9; 9]] /\
+  spec_apply_all true false EM_386 false symvals [1; 1; 0; 0; 9; 9; 9; 9] es = Ok [1; 2; 0; 0; 9; 9; 9; 9].
 Proof. repeat split; vm_compute; reflexivity. Qed.
